@@ -9,7 +9,8 @@
 (* Total acceptance: nothing blocks.  SHAPE (computed here, from the inputs) is ONECHAR when some input has      *)
 (* exactly one non-separator character, else OTHER; EXC names the first unexpected exception among the fields the law reads.      *)
 (* For the cases on folders as spelled (kinds S, Y) SHAPE is the stratum of the spelling (Paths!SpellShape of   *)
-(* the folder / of the two roots), or Paths!HeldTag for the held input class.                                    *)
+(* the folder / of the two roots), or Paths!HeldTag for the root re-spelled with an empty relative part; every  *)
+(* kind: Paths!DriveTag for the held input class (a U+0130 "drive" where drive letters exist and case is folded).  *)
 (* At most Cap witnesses are kept per (clause string, convention) in one TLC run; the rest are counted.          *)
 EXTENDS Paths, Json, IOUtils, TLC
 VARIABLES tid, l
@@ -24,8 +25,10 @@ CfgOf(j) == [sep |-> j.sep, cs |-> j.cs = 1, win |-> j.win = 1]
 Conv(t)  == <<Traces[t][1].c, Traces[t][1].c2>>
 
 NonSepCount(s) == Cardinality({i \in 1..Len(s) : ~IsSepCh(s[i])})
+HeldLine == HeldIn(vc, {vp, vq, vr}) \/ HeldIn(vc2, {vp, vq, vr})        \* the held input class (Paths!DriveTag)
 Shape ==
-  CASE Ev.kind = "S" -> SpellShape(vc, vp)
+  CASE HeldLine -> DriveTag
+    [] Ev.kind = "S" -> SpellShape(vc, vp)
     [] Ev.kind = "Y" -> SpellShape(vc, vp) \o "+" \o SpellShape(vc2, vr)
     [] OTHER -> IF \E s \in {Ev.p, Ev.q, Ev.r} : NonSepCount(s) = 1 THEN "ONECHAR" ELSE "OTHER"
 \* the first unexpected exception among the fields `reads` of the code's observation
